@@ -31,6 +31,23 @@ def lw(words):
     return [limbs(w) for w in words]
 
 
+def layout(np, rng, values, dtype):
+    """numpy array with the given logical content in one of several memory layouts (contiguous, reversed view with stride -1,
+    every second element of a larger buffer, reversed strided view): the bindings must read arrays in logical order"""
+    a = np.array(values, dtype=dtype)
+    r = rng.random()
+    if r < 0.55 or len(a) == 0:
+        return a
+    if r < 0.75:
+        return np.ascontiguousarray(a[::-1])[::-1]
+    buf = np.zeros(2 * len(a) + 1, dtype=dtype)
+    if r < 0.9:
+        buf[0:2 * len(a):2] = a; buf[1::2] = 77
+        return buf[0:2 * len(a):2]
+    buf[0:2 * len(a):2] = a[::-1]; buf[1::2] = 77
+    return buf[0:2 * len(a):2][::-1]
+
+
 class Models:
     """Random models + their descriptors for the specification (spec/PyModels.tla)."""
 
@@ -133,7 +150,7 @@ def drive_ans(cm, np, rng, n_events, out, rep):
             else:
                 k = rng.randint(0, 7)
                 data = [rng.choice([0, 1, 0xffffffff, rng.getrandbits(32), rng.getrandbits(32), rng.getrandbits(5)]) for _ in range(k)]
-                arr = np.array(data, dtype=np.uint32)
+                arr = layout(np, rng, data, np.uint32)
                 if how < 0.65:
                     try:
                         coder = A(arr)
@@ -157,7 +174,7 @@ def drive_ans(cm, np, rng, n_events, out, rep):
                 items = [[mods.spec(d), sym]]; stack.append((d, sym)); rep.cls("enc_single")
             elif form < 0.7:
                 d = mods.desc(); k = rng.randint(0, 6); syms = [rng.choice(list(mods.support(d))) for _ in range(k)]
-                coder.encode_reverse(np.array(syms, dtype=np.int32), mods.build(d))
+                coder.encode_reverse(layout(np, rng, syms, np.int32), mods.build(d))
                 items = [[mods.spec(d), s] for s in reversed(syms)]
                 for s in reversed(syms): stack.append((d, s))
                 rep.cls("enc_iid_array")
@@ -220,8 +237,8 @@ def drive_ans(cm, np, rng, n_events, out, rep):
         elif ch < 0.85:
             coder = coder.clone(); observe(coder, {"ev": "clone"}); rep.cls("clone")
         elif ch < 0.9:
-            words = np.array([int(x) for x in coder.get_compressed()], dtype=np.uint32)
-            data = [int(x) for x in words]
+            data = [int(x) for x in coder.get_compressed()]
+            words = layout(np, rng, data, np.uint32)
             coder = A(words); observe(coder, {"ev": "from_compressed", "data": lw(data)}); rep.cls("reimport"); snaps = []
         elif ch < 0.95 and snaps:
             p, st, depth = rng.choice(snaps)
@@ -274,7 +291,7 @@ def drive_range(cm, np, rng, n_events, out, rep):
                 enc.encode(sym, mods.build(d)); items = [[mods.spec(d), sym]]; msg.append((d, sym)); rep.cls("enc_single")
             elif form < 0.5:
                 d = mods.desc(); k = rng.randint(0, 6); syms = [rng.choice(list(mods.support(d))) for _ in range(k)]
-                enc.encode(np.array(syms, dtype=np.int32), mods.build(d))
+                enc.encode(layout(np, rng, syms, np.int32), mods.build(d))
                 items = [[mods.spec(d), s] for s in syms]; msg.extend((d, s) for s in syms); rep.cls("enc_iid_array")
             elif form < 0.7:
                 fam = rng.choice(["uniform", "fast", "leaky"]); k = rng.randint(1, 5)
@@ -311,7 +328,7 @@ def drive_range(cm, np, rng, n_events, out, rep):
         if rng.random() < 0.5:
             dec = enc.get_decoder(); rep.cls("get_decoder")
         else:
-            dec = Q.RangeDecoder(np.array([int(x) for x in enc.get_compressed()], dtype=np.uint32)); rep.cls("decoder_from_words")
+            dec = Q.RangeDecoder(layout(np, rng, [int(x) for x in enc.get_compressed()], np.uint32)); rep.cls("decoder_from_words")
         emit({"ev": "decoder", "maybe_exhausted": bool(dec.maybe_exhausted())})
         at = 0
         steps = 0
@@ -397,7 +414,7 @@ def drive_chain(cm, np, rng, n_events, out, rep):
         data = [rng.choice([0, 1, 0xffffffff, rng.getrandbits(32), rng.getrandbits(32), rng.getrandbits(32), rng.getrandbits(9)]) for _ in range(k)]
         how = rng.choice(["binary", "binary", "compressed"])
         try:
-            coder = C(np.array(data, dtype=np.uint32), False, how == "binary")
+            coder = C(layout(np, rng, data, np.uint32), False, how == "binary")
         except ValueError:
             emit({"ev": "ctor_refused", "how": how, "data": lw(data)}); rep.cls("ctor_refused"); continue
         observe(coder, {"ev": "ctor", "how": how, "data": lw(data)}); rep.cls("ctor_" + how)
@@ -436,7 +453,7 @@ def drive_chain(cm, np, rng, n_events, out, rep):
             words = b if mode == "suffix" else a + b
             prefix = a if mode == "suffix" else []
             try:
-                coder = C(np.array(words, dtype=np.uint32), True, False)
+                coder = C(layout(np, rng, words, np.uint32), True, False)
                 observe(coder, {"ev": "ctor", "how": "remainders", "data": lw(words)}); rep.cls("ctor_remainders_" + mode)
             except ValueError:
                 emit({"ev": "ctor_refused", "how": "remainders", "data": lw(words)}); rep.cls("ctor_refused"); continue
@@ -519,7 +536,7 @@ def drive_symbol(cm, np, rng, n_events, out, rep):
                 if bitrate % 32 == 0: rep.cls("stack_export_at_word_boundary")
             elif r < 0.95:
                 words, _ = st.get_compressed_and_bitrate(); words = [int(x) for x in words]
-                st = S.StackCoder(np.array(words, dtype=np.uint32)); emit({"ev": "stack_from", "word_bits": wbits(words)}); rep.cls("stack_reimport")
+                st = S.StackCoder(layout(np, rng, words, np.uint32)); emit({"ev": "stack_from", "word_bits": wbits(words)}); rep.cls("stack_reimport")
             else:
                 w, f32, enc, dec = book()
                 try:
@@ -539,7 +556,7 @@ def drive_symbol(cm, np, rng, n_events, out, rep):
         if rng.random() < 0.5:
             qd = q.get_decoder(); rep.cls("queue_get_decoder")
         else:
-            qd = S.QueueDecoder(np.array(words, dtype=np.uint32)); rep.cls("queue_decoder_from_words")
+            qd = S.QueueDecoder(layout(np, rng, words, np.uint32)); rep.cls("queue_decoder_from_words")
         emit({"ev": "queue_decoder", "word_bits": wbits(words), "from_encoder": True})
         for (w, f32, dec, sym) in msg:
             got = int(qd.decode_symbol(dec))
@@ -580,27 +597,35 @@ def family(mods, rng, fam, k):
 
 def _family_args(cm, np, mods, fam, ds):
     M = cm.stream.model
+    rng = mods.rng
     if fam == "uniform":
-        return M.Uniform(), (np.array([d["n"] for d in ds], dtype=np.int32),)
+        return M.Uniform(), (layout(np, rng, [d["n"] for d in ds], np.int32),)
     if fam == "fast":
         probs = np.array([[w / float(sum(d["w"])) for w in d["w"]] for d in ds], dtype=np.float64)
         return M.Categorical(perfect=False), (probs,)
     mn, n, m = ds[0]["min"], ds[0]["n"], ds[0]["m"]
     tables = [d["K"] for d in ds]
+    # two parameter arrays (a, b) that only TOGETHER select the table of a symbol: t = (a + b) mod len.  A binding that pairs
+    # parameter i of one array with parameter j != i of the other uses the wrong model.
+    k = len(ds)
+    b = [rng.randint(0, 3 * k) for _ in range(k)]
+    a = [(i - b[i]) % k for i in range(k)]
 
-    def cdf(x, t):
+    def cdf(x, p, q):
+        t = int(round(p + q)) % k
         i = math.floor(x - mn + 0.5)
-        return 0.0 if i <= 0 else (1.0 if i >= n else tables[int(t)][i - 1] / float(1 << m))
+        return 0.0 if i <= 0 else (1.0 if i >= n else tables[t][i - 1] / float(1 << m))
 
-    def inv(q, t):
-        return mn + (n - 1) * q
-    return M.CustomModel(cdf, inv, mn, mn + n - 1), (np.arange(len(ds), dtype=np.float64),)
+    def inv(q_, p, q):
+        return mn + (n - 1) * q_
+    mods.rep.cls("model_family_two_parameter_arrays")
+    return M.CustomModel(cdf, inv, mn, mn + n - 1), (layout(np, rng, a, np.float64), layout(np, rng, b, np.float64))
 
 
 def encode_family(encode, cm, np, mods, fam, ds, syms):
     model, params = _family_args(cm, np, mods, fam, ds)
     mods.rep.cls("model_family_" + fam)
-    encode(np.array(syms, dtype=np.int32), model, *params)
+    encode(layout(np, mods.rng, syms, np.int32), model, *params)
 
 
 def decode_family(decode, cm, np, mods, fam, ds):
